@@ -11,7 +11,8 @@
 (*     R[4 ni nj nl]{data f4 [nl][nj][ni]}     skip = 4 ni nj nl + 8           *)
 (* configuration c: c.tr sequence of tracers [cat, id, unit, nl, name, scale2] *)
 (* (cat/unit/name as character sequences; the table scale is 2^scale2),       *)
-(* c.ni, c.nj, c.i0, c.j0, c.nt ; tau0 of block t is c.tau + 24 (t - 1).       *)
+(* c.ni, c.nj, c.i0, c.j0, c.l0 (window origin, 1-based; l0 > 1: level-range   *)
+(* output), c.nt ; tau0 of block t is c.tau + 24 (t - 1).                     *)
 (* tr.off is the category offset of diaginfo; tr.intab tells whether the tracer *)
 (* table has a line for off + id (if not, the reader names the variable after  *)
 (* the bare tracer id and must not scale it: scale 1, unit of the data header). *)
@@ -35,7 +36,7 @@ Skip(c, s) == 4 * c.ni * c.nj * c.tr[s].nl + 8
 BpchBlock(c, s, t) ==
   << << S(<<"G","E","O","S","5","_","4","7","L">>, 20), F(4), F(5), I(0), I(1) >>,
      << S(c.tr[s].cat, 40), I(c.tr[s].id), S(c.tr[s].unit, 40), Dbl(Tau0(c, t)), Dbl(Tau0(c, t) + 24),
-        S(<<>>, 40), I(c.ni), I(c.nj), I(c.tr[s].nl), I(c.i0), I(c.j0), I(1), I(Skip(c, s)) >>,
+        S(<<>>, 40), I(c.ni), I(c.nj), I(c.tr[s].nl), I(c.i0), I(c.j0), I(c.l0), I(Skip(c, s)) >>,
      BGrid(c, s, t) >>
 BpchLayout(c) ==
   << << S(<<"C","T","M"," ","b","i","n"," ","0","2">>, 40) >>, << S(<<"v","e","r","i","f">>, 80) >> >>
